@@ -653,7 +653,11 @@ where
     }
     if need_explicit_dep_target {
         dependency_args.push(dep_flag);
-        dependency_args.push(dep_target.unwrap_or_else(|| output.clone().into_os_string()));
+        // The compilers quote their default target for Make ("as if it were given
+        // with -MQ"); the target synthesized here is passed with -MT, which does not.
+        dependency_args.push(
+            dep_target.unwrap_or_else(|| quote_for_make(output.clone().into_os_string())),
+        );
     }
     if let DepArgumentRequirePath::Missing = need_explicit_dep_argument_path {
         dependency_args.push(OsString::from("-MF"));
@@ -971,6 +975,34 @@ where
     };
 
     Ok((command, dist_command, Cacheable::Yes))
+}
+
+/// Quote `target` the way gcc and clang quote the default target of a
+/// dependency file: white space gets a backslash (and every backslash right
+/// before it is doubled), `$` becomes `$$`, `#` becomes `\#`.
+fn quote_for_make(target: OsString) -> OsString {
+    let s = match target.to_str() {
+        Some(s) if s.contains([' ', '\t', '$', '#']) => s,
+        _ => return target,
+    };
+    let mut out = String::with_capacity(s.len() + 4);
+    let mut backslashes = 0;
+    for c in s.chars() {
+        match c {
+            ' ' | '\t' => {
+                for _ in 0..backslashes {
+                    out.push('\\');
+                }
+                out.push('\\');
+            }
+            '$' => out.push('$'),
+            '#' => out.push('\\'),
+            _ => {}
+        }
+        backslashes = if c == '\\' { backslashes + 1 } else { 0 };
+        out.push(c);
+    }
+    out.into()
 }
 
 pub struct ExpandIncludeFile<'a> {
